@@ -48,14 +48,14 @@ class C03(HistoryProperty):
         "evaluation on cold worlds; distinct = hash of (spec, dictionaries); non-trivial = histories where keys() succeeded at least "
         "once with a non-empty key set and the restricted dictionary was strictly smaller than the original"
     )
-    ASSUMPTIONS = ["no dictionary holds a non-section value at a proper prefix of a key the program reads (open finding KF-scalar-at-section-prefix)"]
+    ASSUMPTIONS = ["dictionaries are JSON with an acyclic template reference graph", "open finding KF-C03-fallback-keys-not-restriction-stable is reported, not failed"]
     QUICK = {"runs": 2500, "wall": 40}
     THOROUGH = {"runs": 300000, "wall": 480}
     NONTRIVIAL_MEASURE = "history_with_strict_restriction"
     N_XPROC = {"quick": 120, "thorough": 3000}
 
     def gen_case(self, rng, tier):
-        cfg = gen.swarm_cfg(rng, off=("shape_change",))
+        cfg = gen.swarm_cfg(rng)
         spec = gen.prune(gen.gen_spec(rng, cfg))
         ops = gen_history(rng, cfg, spec)
         return {"cfg": cfg, "spec": spec, "ops": ops}
@@ -187,8 +187,13 @@ class C03(HistoryProperty):
         return [r.to_dict() for r in self._run_xproc(cases)]
 
     def signature(self, case, violation):
-        if gen.scalar_at_section_prefix(case["spec"], [op["o"] for op in case["ops"] if "o" in op]):
-            return "scalar-at-section-prefix"
+        if violation["kind"] == "restricted-keys-differ":
+            by = {n["id"]: n for n in case["spec"]["nodes"]}
+            fallback = [n for n in by.values() if n["k"] == "coalesce" or (n["k"] in ("switch",) and n.get("default") is not None)
+                        or (n["k"] == "dataset" and n.get("dispatch") is not None and not n.get("abstract"))]
+            nested = [n for n in by.values() if n["k"] in ("switch", "case", "bind") or (n["k"] == "dataset" and n.get("dispatch") is not None)]
+            if fallback and len(nested) >= 2:
+                return "fallback-after-nested-failure"
         return None
 
     def shrink_candidates(self, case):
